@@ -340,7 +340,7 @@ def clauses(PageHinkley, cfg, X, params, obs):
 
 # ------------------------------------------------------------------ cases
 SCALES = [[3.0, 1.0, 0.3, 0.1], [2.0, 1.5, 1.0, 0.5], [4.0, 0.5, 0.4, 0.05], [1.0, 1.0, 1.0, 1.0]]
-DELTAS = [0.1, 0.05, 0.01, 0.005, 0.25]
+DELTAS = [0.1, 0.05, 0.01, 0.005, 0.25, 0.0]      # 0 is a legal magnitude of acceptable change
 PERIODS = {20: [0.05, 0.125, 0.03, 0.25, 0.1], 50: [0.05, 0.03, 0.1, 0.02, 0.25], 100: [0.05, 0.125, 0.075, 0.01, 1.5, 0.025]}
 
 
